@@ -516,8 +516,12 @@ def template_cases(rng, limit):
     for k, (p0, p1) in enumerate(pairs):
         l0, l1 = len(p0), len(p1)
         combos = list(itertools.combinations(range(l0 + l1), l0))
-        lim = limit if k < generic else 5 * limit      # the special scenarios: (nearly) all interleavings
-        if len(combos) > lim: combos = rng.sample(combos, lim)
+        lim = limit if k < generic else 2 * limit
+        if len(combos) > lim:
+            # always: thread 0 runs k operations, thread 1 runs completely, thread 0 finishes (every k) — the conflict shapes
+            forced = [tuple(range(q)) + tuple(range(q + l1, l0 + l1)) for q in range(l0 + 1)]
+            others = [c for c in combos if c not in forced]
+            combos = forced + rng.sample(others, max(0, lim - len(forced)))
         for pos in combos:
             picks = [1] * (l0 + l1)
             for p in pos: picks[p] = 0
@@ -733,7 +737,7 @@ def run(ctx, extra_cases=()):
             try: run_cases(ctx, env2, shape_cases(ctx.rng, ctx.scale(6, 40), prime_null), 'null-shape:primed-' + ('null' if prime_null else 'value'))
             finally: env2.close()
         run_cases(ctx, env, template_cases(ctx.rng, ctx.scale(12, 80)), 'template')
-        n = ctx.scale(400, 8000)
+        n = ctx.scale(350, 8000)
         for chunk in range(0, n, 500):
             run_cases(ctx, env, [gen_case(ctx.rng, chunk + i) for i in range(min(500, n - chunk))], 'random')
     finally:
